@@ -35,6 +35,7 @@ var effectFreePrefixes = []string{
 }
 
 const tagPlainErr = 1000001
+const tagWrapErr = 1000002
 
 func returnsNonNilError(name string) bool {
 	switch name {
@@ -117,10 +118,17 @@ func (g *Gen) contractOfCall(c *ssa.CallCommon) (*Contract, string) {
 		key := g.prog.contractKeyOfFunc(fn)
 		return g.cs.Funcs[key], key
 	}
-	// call through a function value: contract keyed by the named func type or struct field
+	// call through a function value: contract keyed by the named func type, or for an unnamed
+	// func type by "dyn:<signature>" in the calling package
 	if n, ok := c.Value.Type().(*types.Named); ok && n.Obj().Pkg() != nil {
 		key := n.Obj().Pkg().Path() + "." + n.Obj().Name()
 		return g.cs.Funcs[key], key
+	}
+	if g.pkg != nil {
+		key := g.pkg.Path() + ".dyn:" + strings.ReplaceAll(types.TypeString(c.Value.Type(), func(p *types.Package) string { return p.Name() }), " ", "")
+		if ct, ok := g.cs.Funcs[key]; ok {
+			return ct, key
+		}
 	}
 	return nil, calleeName(c)
 }
